@@ -48,7 +48,7 @@ func TestMain(m *testing.M) {
 	core.DeclareProbes("redraw-on-collision", "scripted-fresh-id", "raw-key-id-draw", "same-message-signed-twice", "second-primitive-same-key",
 		"second-handle-same-key", "subtle-constructor", "writer-repeat-on-primitive", "interleaved-keys", "full-sweep", "edge-position",
 		"field-delivered-by-short-reads", "ecdh-recompute-x25519", "ecdh-recompute-nist", "p521-masked-byte-flipped", "mlkem-consecutive",
-		"xwing-both-halves", "ecies-dem-iv", "ecies-compressed-point", "composite-two-draws", "surplus-bytes-not-judged", "keygen-symmetric-copy",
+		"xwing-both-halves", "ecies-dem-iv", "ecies-compressed-point", "composite-two-draws", "dead-position-swept", "keygen-symmetric-copy",
 		"keygen-asymmetric-copy", "keygen-asymmetric-fn", "keygen-nonrandomized-type", "pooled-key", "jwt-signature", "id-spread-batch", "keyid-spread-judged", "caller-appends-to-random-bytes",
 		"kms-envelope-fresh-dek", "manager-delete", "manager-setprimary", "manager-disable-enable", "add-after-delete", "mldsa-prehash-signer", "output-verified")
 	if core.Thorough() {
@@ -106,12 +106,11 @@ type shortReader struct {
 	// lane of the request being served: 0 = the main stream, 1 = fresh bytes
 	// handed out during re-runs to requests the original call did not make.
 	lane int
-	// re-run mode: the library may keep state (a pool of random bytes), so a
+	// re-run mode: the library may keep state (a buffer of random bytes), so a
 	// re-run must never let it see main-stream bytes a second time except as the
-	// very request that got them the first time. The i-th small request of the
-	// re-run gets the bytes of the i-th small request of the original call if the
-	// sizes agree; everything else (bulk fetches, extra or different requests)
-	// gets fresh bytes from lane 1.
+	// very request that got them the first time. A request of the re-run gets
+	// the bytes of the next not yet replayed request of the original call that
+	// has the same size; every other request gets fresh bytes from lane 1.
 	replaying bool
 	plan      []req // the original call's requests, absolute offsets
 	cur       int
@@ -145,16 +144,14 @@ func (s *shortReader) Read(p []byte) (int, error) {
 		s.lane = 0
 		if s.replaying && !scripted && len(p) > 1 {
 			s.lane = 1
-			if len(p) < bulkMin && !s.desync {
-				for s.cur < len(s.plan) && s.plan[s.cur].n >= bulkMin {
-					s.cur++
-				}
-				if s.cur < len(s.plan) && s.plan[s.cur].n == len(p) {
+			// the next request of the original call that has this size (requests the
+			// re-run does not repeat, e.g. a read-ahead that is still stocked, are skipped)
+			for k := s.cur; k < len(s.plan); k++ {
+				if s.plan[k].n == len(p) {
 					s.lane = 0
-					s.g.SetOffset(0, s.plan[s.cur].off)
-					s.cur++
-				} else {
-					s.desync = true
+					s.g.SetOffset(0, s.plan[k].off)
+					s.cur = k + 1
+					break
 				}
 			}
 		}
@@ -442,31 +439,17 @@ func (w *world) bracket(where string, f func()) win {
 	}
 	wn.forced = w.sr.nForce > nf
 	wn.plan = append([]req(nil), w.sr.reqs...)
-	isBulk := make([]bool, len(wn.raw))
-	for _, q := range wn.plan {
-		if q.n >= bulkMin {
-			bulkSeen = true
-		}
-		if q.n >= bulkMin && q.off >= start && q.off+uint64(q.n) <= end {
-			a := int(q.off - start)
-			wn.bulk = append(wn.bulk, [2]int{a, a + q.n})
-			for i := a; i < a+q.n; i++ {
-				isBulk[i] = true
-			}
-		}
+	// every issued byte belongs to the window; which of them a call leaves
+	// behind for later (a library that reads ahead) is decided by what its
+	// judged fields turn out to use, never by the size of a request
+	wn.data = wn.raw
+	wn.eff = make([]int, len(wn.raw))
+	for i := range wn.eff {
+		wn.eff[i] = i
 	}
-	rawToEff := make([]int, len(wn.raw)+1)
-	for i, b := range wn.raw {
-		rawToEff[i] = len(wn.data)
-		if !isBulk[i] {
-			wn.data = append(wn.data, b)
-			wn.eff = append(wn.eff, i)
-		}
-	}
-	rawToEff[len(wn.raw)] = len(wn.data)
 	for _, q := range wn.plan {
-		if q.n < bulkMin && q.off >= start && q.off < end {
-			wn.reqs = append(wn.reqs, req{uint64(rawToEff[int(q.off-start)]), q.n})
+		if q.off >= start && q.off < end {
+			wn.reqs = append(wn.reqs, req{q.off - start, q.n})
 		}
 	}
 	w.sr.armed = false
@@ -636,6 +619,19 @@ func (w *world) markEff(wn win, from, to int) {
 	}
 }
 
+// noteLeftover: the field at data[a:a+n) was served by a request that asked for
+// more than the field: the call leaves issued bytes behind (a read-ahead
+// buffer, or candidates it discards). From then on the process treats the
+// library as possibly stateful (every run gets its own stream).
+func (w *world) noteLeftover(wn win, a, n int) {
+	for _, q := range wn.reqs {
+		if int(q.off) <= a && a+n <= int(q.off)+q.n && q.n > n {
+			leftoverSeen = true
+			return
+		}
+	}
+}
+
 func overlaps(a, b int, excl [][2]int) bool {
 	for _, x := range excl {
 		if a < x[1] && x[0] < b {
@@ -673,6 +669,7 @@ func (w *world) explainCopy(wn win, loc, field string, v []byte, lo, hi int, exc
 			}
 			if a := pos + i; !overlaps(a, a+len(v), excl) {
 				w.markEff(wn, a, a+len(v))
+				w.noteLeftover(wn, a, len(v))
 				w.oracles["copy"] = true
 				if wn.short {
 					r.Probe("field-delivered-by-short-reads")
@@ -751,33 +748,34 @@ func (w *world) underPooledRNG(wn win, loc, field string, orig []byte, redo func
 
 // fnSpec describes one sensitivity check.
 type fnSpec struct {
-	loc   string
-	need  randNeed
-	cost  int
-	probe string
-	skip  bool // consumption is still checked, the re-runs are not made (economy on slow keys)
-	head  int  // live bytes drawn before the rejection-sampled part of the window (key-ID bytes of a key generation)
-	all   bool // flip every live position
+	loc     string
+	need    randNeed
+	cost    int
+	probe   string
+	skip    bool     // consumption is still checked, the re-runs are not made (economy on slow keys)
+	exclude [][2]int // positions that belong to another explanation (the key-ID bytes of a key generation)
+	all     bool     // sweep at once
 	// changed re-runs the call with byte j flipped and reports whether the
 	// random-dependent output field for position j differs from the original.
 	changed func(j int) bool
 }
 
-// sensitivity is the "fn" oracle.
+// sensitivity is the "fn" oracle: the output of the call depends on the
+// randomness it drew. It is a NECESSARY condition only — a conforming library
+// may draw bytes it then discards (candidates of a rejection sampler, spare
+// key-ID candidates, read-ahead it keeps for later), so no particular
+// position has to matter. What must hold: the number of positions whose flip
+// (XOR 0xFF) changes the output is at least the scheme's randomness length L
+// (every byte of a scalar, a hedging value, a salt, a seed influences the
+// output: ECDSA hashes all of Z into its DRBG, PSS hashes the whole salt,
+// ML-DSA/SLH-DSA absorb rnd/addrnd, X25519 clamping and the P-521 mask keep
+// at least one bit of every byte).
 //
-// What may legitimately not influence the output (go1.26.8 sources): nothing
-// among the bytes the scheme needs — ECDSA hashes all len(d) bytes of Z into
-// its hedged DRBG (crypto/internal/fips140/ecdsa.Sign), PSS hashes the whole
-// salt, ML-DSA/SLH-DSA absorb rnd/addrnd, X25519 clamping and the P-521 mask
-// (key[0] &= 1) keep at least one bit of every byte, so XOR 0xFF always
-// changes the scalar. Only bytes of a *rejected* scalar candidate (≥ N,
-// probability < 2^-32 per draw on every NIST curve) are dead, and then the
-// call has consumed whole extra blocks: with T bytes consumed and L the
-// scheme's length, the window is head ‖ (T-L surplus bytes) ‖ last L-head
-// bytes, where head are the bytes drawn before the rejection-sampled part
-// (the 4 key-ID bytes of a key generation). Only the L live positions are
-// flipped and judged, and every one of them must change the output; the
-// surplus bytes (rejected candidates) are never judged.
+// A handful of positions is flipped first. If all of them matter, the check is
+// done (that is the whole cost on a tree that draws exactly what it needs). If
+// one does not, the positions outside s.exclude are swept — those of the
+// smallest requests first, stopping as soon as L influential ones are found —
+// and fewer than L is the violation.
 func (w *world) sensitivity(wn win, s fnSpec) {
 	T := len(wn.data)
 	if T < s.need.min {
@@ -788,31 +786,42 @@ func (w *world) sensitivity(wn win, s fnSpec) {
 		return
 	}
 	L := s.need.min
-	if !s.need.exact {
-		L = T
-	}
-	surplus := T - L
-	head := s.head
-	if head > L {
-		head = L
-	}
-	live := func(i int) int { // i-th live position → window position
-		if i < head {
-			return i
+	var univ []int
+	for j := 0; j < T; j++ {
+		if !overlaps(j, j+1, s.exclude) {
+			univ = append(univ, j)
 		}
-		return i + surplus
 	}
-	var pos []int
+	if len(univ) == 0 || L == 0 {
+		return
+	}
+	tested := map[int]bool{} // position → influential
+	test := func(j int) bool {
+		if v, ok := tested[j]; ok {
+			return v
+		}
+		v := s.changed(j)
+		tested[j] = v
+		return v
+	}
+	influential := func() int {
+		n := 0
+		for _, v := range tested {
+			if v {
+				n++
+			}
+		}
+		return n
+	}
 	mode := "sample"
 	if s.all {
 		mode = "all"
-	} else if s.cost == 0 && L <= 80 {
+	} else if s.cost == 0 && len(univ) <= 80 {
 		mode = rapid.SampledFrom([]string{"sample", "sample", "sample", "all"}).Draw(w.t, "fnMode")
 	}
+	var pos, dead []int
 	if mode == "all" {
-		for i := 0; i < L; i++ {
-			pos = append(pos, live(i))
-		}
+		pos = univ
 		w.r.Probe("full-sweep")
 	} else {
 		k := 2
@@ -825,24 +834,20 @@ func (w *world) sensitivity(wn win, s fnSpec) {
 			k = rapid.IntRange(2, 3).Draw(w.t, "fnCount")
 		}
 		for i := 0; i < k; i++ {
-			switch rapid.SampledFrom([]string{"any", "any", "any", "first", "last", "firstAfterHead"}).Draw(w.t, "fnPosKind") {
+			switch rapid.SampledFrom([]string{"any", "any", "any", "first", "last"}).Draw(w.t, "fnPosKind") {
 			case "first":
-				pos = append(pos, live(0))
+				pos = append(pos, univ[0])
 				w.r.Probe("edge-position")
 			case "last":
-				pos = append(pos, live(L-1))
-				w.r.Probe("edge-position")
-			case "firstAfterHead":
-				pos = append(pos, live(head%L))
+				pos = append(pos, univ[len(univ)-1])
 				w.r.Probe("edge-position")
 			default:
-				pos = append(pos, live(rapid.IntRange(0, L-1).Draw(w.t, "fnPos")))
+				pos = append(pos, univ[rapid.IntRange(0, len(univ)-1).Draw(w.t, "fnPos")])
 			}
 		}
 	}
-	var dead []int
 	for _, j := range pos {
-		if !s.changed(j) {
+		if !test(j) {
 			dead = append(dead, j)
 		}
 	}
@@ -850,14 +855,32 @@ func (w *world) sensitivity(wn win, s fnSpec) {
 	if s.probe != "" {
 		w.r.Probe(s.probe)
 	}
-	if surplus > 0 {
-		w.r.Probe("surplus-bytes-not-judged")
+	swept := false
+	if len(dead) > 0 && influential() < L {
+		// some flipped byte does not matter: count the ones that do
+		swept = true
+		w.r.Probe("dead-position-swept")
+		size := make([]int, T) // size of the request a position belongs to
+		for _, q := range wn.reqs {
+			for j := int(q.off); j < int(q.off)+q.n && j < T; j++ {
+				size[j] = q.n
+			}
+		}
+		order := append([]int(nil), univ...)
+		sort.SliceStable(order, func(x, y int) bool { return size[order[x]] < size[order[y]] })
+		for _, j := range order {
+			if influential() >= L {
+				break
+			}
+			test(j)
+		}
 	}
+	n := influential()
 	if w.r.Tracing() {
-		w.r.Logf("  fn %s: flipped %v of %d consumed bytes (%d surplus, not judged), output unchanged at %v", s.loc, pos, T, surplus, dead)
+		w.r.Logf("  fn %s: flipped %v of %d consumed bytes, output unchanged at %v; swept=%v, %d of %d tested positions matter (scheme needs %d)", s.loc, pos, T, dead, swept, n, len(tested), L)
 	}
-	if len(dead) > 0 {
-		w.r.Violation("C20/insensitive:"+s.loc, fmt.Sprintf("flipping consumed byte(s) %v (of %d consumed, scheme needs %d) left the output unchanged; flipped %v", dead, T, s.need.min, pos))
+	if (len(dead) > 0 && n < L) || n == 0 {
+		w.r.Violation("C20/insensitive:"+s.loc, fmt.Sprintf("only %d of the %d consumed bytes (%d tested) influence the output, the scheme's randomness is %d bytes; flipping %v changed nothing", n, T, len(tested), L, dead))
 	}
 }
 
@@ -958,6 +981,29 @@ func copiedDisjoint(material []byte, secrets []secretField) bool {
 	return true
 }
 
+// markMaterial marks, in the ledger, exactly the issued bytes the secrets copy
+// (material = data without [idFrom,idTo)); what else the call drew stays unused.
+func (w *world) markMaterial(wn win, idFrom, idTo int, secrets []secretField) {
+	material := without(wn.data, idFrom, idTo)
+	for _, s := range secrets {
+		a, b, ok := findMaterial(material, s.data)
+		if !ok {
+			continue
+		}
+		for p := a; p < b; p++ {
+			q := p
+			if p >= idFrom {
+				q = p + idTo - idFrom
+			}
+			w.markEff(wn, q, q+1)
+		}
+		if a >= idFrom {
+			a, b = a+idTo-idFrom, b+idTo-idFrom
+		}
+		w.noteLeftover(wn, a, b-a)
+	}
+}
+
 // explainSecrets: the key material is not made of bytes of ordinary requests
 // of its own call; each secret must then be explained by the rest of the
 // ladder (bulk fetch / earlier-issued unused bytes), or the material as a
@@ -1030,7 +1076,6 @@ func (w *world) genKey(e catalog.Entry) key.Key {
 		return nil
 	}
 	idLen := idEnd - idOff
-	idCopy := idLen == 4 && idIs(id, wn.data[idOff:idEnd])
 	w.noteID(id)
 	material := without(wn.data, idOff, idEnd)
 	keyField := func() []byte {
@@ -1053,6 +1098,9 @@ func (w *world) genKey(e catalog.Entry) key.Key {
 		cat = append(cat, s.data...)
 	}
 	allCopied := copiedDisjoint(material, secrets)
+	if allCopied {
+		w.markMaterial(wn, idOff, idEnd, secrets)
+	}
 	r.Obs("key material", cat)
 	if !e.Randomized {
 		r.Probe("keygen-nonrandomized-type")
@@ -1098,30 +1146,33 @@ func (w *world) genKey(e catalog.Entry) key.Key {
 				}
 			}
 		} else {
-			head := idLen
-			if idOff != 0 {
-				head = 0
-			}
-			if e.KeyType == "compositemldsa" {
-				head += 32 // the ML-DSA seed is drawn before the classical key
-			}
 			if wn.forced && T > idLen+need {
 				r.Fault("forced-scalar-rejection")
 				w.faults["rejection"] = true
 			}
-			w.sensitivity(wn, fnSpec{loc: loc + ".keygen", need: randNeed{idLen + need, true}, cost: e.Cost, probe: "keygen-asymmetric-fn", head: head,
+			// The ID's bytes belong to the ID explanation; the key must depend on at
+			// least `need` of the other bytes (judged by its secret material, so that a
+			// changed ID requirement does not count as a changed key).
+			var excl [][2]int
+			if idLen > 0 {
+				excl = [][2]int{{idOff, idEnd}}
+			}
+			w.sensitivity(wn, fnSpec{loc: loc + ".keygen", need: randNeed{need, true}, cost: e.Cost, probe: "keygen-asymmetric-fn", exclude: excl,
 				changed: func(j int) bool {
-					var id2 uint32
 					var k2 key.Key
 					var err2 error
-					w.rerun(wn, j, loc+".keygen", func() { id2, k2, err2 = newKeyVia(e) })
+					w.rerun(wn, j, loc+".keygen", func() { _, k2, err2 = newKeyVia(e) })
 					if err2 != nil || k2 == nil {
 						return true
 					}
-					if j >= idOff && j < idEnd {
-						// a copied ID changes with each of its bytes; an ID that is a function of a
-						// longer draw was judged bit by bit in explainID
-						return !idCopy || id2 != id
+					if len(cat) > 0 {
+						var sec []secretField
+						secretsOf(k2, "", 0, &sec)
+						var c []byte
+						for _, s := range sec {
+							c = append(c, s.data...)
+						}
+						return !bytes.Equal(c, cat)
 					}
 					return !k.Equal(k2)
 				}})
@@ -1430,7 +1481,7 @@ func (w *world) mgrAdd() {
 			return
 		}
 	} else {
-		w.markEff(wn, idTo, len(wn.data))
+		w.markMaterial(wn, idFrom, idTo, secrets)
 	}
 	if len(cat) > 0 {
 		if w.keyMat[string(cat)] {
@@ -1854,6 +1905,7 @@ func (w *world) produce(ki int) {
 		// per-field accounting: the DEM IV may come through the seam or from the
 		// library-internal source, independently of the ephemeral key
 		seamNeed := kem.randLen
+		demAt := -1 // where in the window the DEM IV was found
 		if kem.demIV > 0 {
 			iv := orig[pl+kem.encLen : pl+kem.encLen+kem.demIV]
 			from := kem.randLen
@@ -1866,6 +1918,7 @@ func (w *world) produce(ki int) {
 			}
 			if idx >= 0 {
 				seamNeed += kem.demIV
+				demAt = idx
 			}
 			w.noRepeat(ks, "dem-iv", iv)
 			r.Probe("ecies-dem-iv")
@@ -1892,7 +1945,7 @@ func (w *world) produce(ki int) {
 					w.faults["rejection"] = true
 				}
 			}
-			kemBytes := T - demSeam
+			_ = demSeam
 			skip := ks.fnSkip()
 			w.sensitivity(wn, fnSpec{loc: loc, need: randNeed{seamNeed, true}, cost: ks.e.Cost, skip: skip && !mismatch, all: mismatch,
 				changed: func(j int) bool {
@@ -1903,10 +1956,10 @@ func (w *world) produce(ki int) {
 					if j == 0 && kem.name == "P521" {
 						r.Probe("p521-masked-byte-flipped")
 					}
-					if j < kemBytes {
-						return !bytes.Equal(o[pl+kem.ecOff:pl+kem.ecOff+kem.ecLen], got)
+					if demAt >= 0 && j >= demAt && j < demAt+kem.demIV {
+						return !bytes.Equal(o, orig) // a byte of the DEM IV: the ciphertext changes
 					}
-					return !bytes.Equal(o, orig)
+					return !bytes.Equal(o[pl+kem.ecOff:pl+kem.ecOff+kem.ecLen], got)
 				}})
 			if mismatch {
 				r.Count("ecdh-mismatch-but-every-byte-matters", 1)
@@ -2100,7 +2153,7 @@ func run(t *rapid.T) {
 	// bytes, every run gets a stream of its own. (On a tree that never does, the
 	// stream stays the pure function of the drawn seed it has always been.)
 	runsStarted++
-	if pooledSeen || bulkSeen {
+	if pooledSeen || leftoverSeen {
 		rngSeed ^= (runsStarted + 1) * 0x9e3779b97f4a7c15
 		r.Probe("stream-made-unique-for-stateful-library")
 	}
